@@ -1,5 +1,6 @@
 /-
-  Executable model of `Solver::findRoot` (libfive/src/solve/solver.cpp), core Lean only.
+  Executable model of `Solver::findRoot` (libfive/src/solve/solver.cpp as of /repo commits 4e85339 and
+  3fa47ee), core Lean only.
 
   * The evaluator is abstract: `Problem.value` / `Problem.grad` are functions of the evaluator's
     variable state (the position `pos` is fixed for one call and folded into them).
@@ -74,6 +75,9 @@ structure Accepted (V : Type) where
 
 inductive LS (V : Type) where
   | accepted : Accepted V → LS V
+  /-- the guard `!std::isfinite(step) || step == 0` fired after `n` halvings: nothing is stored;
+      carries the evaluator's slots as the rejected trials left them -/
+  | gaveUp : V → Nat → Assign V → LS V
   /-- fuel exhausted; carries the step the loop would continue with and the halvings done -/
   | outOfFuel : V → Nat → LS V
 
@@ -83,11 +87,16 @@ def exitTest (S : Scalar V) (r slope step r_ : V) : Bool :=
   S.geHalf (S.div diff step) slope || S.lt (S.abs diff) S.eps ||
     S.lt slope S.eps || S.lt r_ S.eps
 
-/-- `for (float step = r / slope; true; step /= 2) { ... }` with `fuel` trials. -/
+/-- `for (float step = r / slope; true; step /= 2) { ... }` with `fuel` trials, as of /repo commit
+    4e85339 (guard at the top of the body).  `ev` are the slots at loop entry: every trial
+    overwrites the same keys (those of `vars`), so writing the trial into the current slots equals
+    writing it into `ev`; `cur` are the current slots (what a give-up leaves behind). -/
 def lineSearch (S : Scalar V) (P : Problem V) (r slope : V) (ds vars ev : Assign V) :
-    Nat → Nat → V → LS V
-  | 0, n, step => .outOfFuel step n
-  | fuel + 1, n, step =>
+    Nat → Nat → V → Assign V → LS V
+  | 0, n, step, _ => .outOfFuel step n
+  | fuel + 1, n, step, cur =>
+    -- if (!std::isfinite(step) || step == 0) { converged = true; break; }
+    if !S.isFinite step || S.isZero step then .gaveUp step n cur else
     -- for (auto& v : vars) e.setVar(v.first, v.second - step * ds.at(v.first));
     let ev' := load ev (stepVars S vars ds step)
     let r_ := P.value ev'
@@ -95,7 +104,20 @@ def lineSearch (S : Scalar V) (P : Problem V) (r slope : V) (ds vars ev : Assign
       .accepted { converged := S.lt (S.abs (S.sub r r_)) S.eps, r := r_,
                   -- for (auto& v : vars) v.second -= step * ds.at(v.first);
                   vars := stepVars S vars ds step, ev := ev', step := step, halvings := n }
-    else lineSearch S P r slope ds vars ev fuel (n + 1) (S.half step)
+    else lineSearch S P r slope ds vars ev fuel (n + 1) (S.half step) ev'
+
+/-- PRE-FIX line search (before 4e85339: no guard).  Kept only so that the refuted claims
+    (`LibfiveTheorems/C17.lean`, section "pre-fix") stay checked theorems. -/
+def lineSearchOld (S : Scalar V) (P : Problem V) (r slope : V) (ds vars ev : Assign V) :
+    Nat → Nat → V → LS V
+  | 0, n, step => .outOfFuel step n
+  | fuel + 1, n, step =>
+    let ev' := load ev (stepVars S vars ds step)
+    let r_ := P.value ev'
+    if exitTest S r slope step r_ then
+      .accepted { converged := S.lt (S.abs (S.sub r r_)) S.eps, r := r_,
+                  vars := stepVars S vars ds step, ev := ev', step := step, halvings := n }
+    else lineSearchOld S P r slope ds vars ev fuel (n + 1) (S.half step)
 
 /-- One log entry per accepted step (used by the theorems and the driver). -/
 structure LogEntry (V : Type) where
@@ -110,8 +132,9 @@ structure St (V : Type) where
   ds : Assign V
   vars : Assign V                 -- the `Solution` being built (masked variables erased)
   ev : Assign V                   -- the evaluator's variable slots
-  iters : Nat := 0                -- completed outer iterations
-  log : List (LogEntry V) := []   -- most recent first
+  iters : Nat := 0                -- outer loop bodies executed
+  log : List (LogEntry V) := []   -- accepted steps, most recent first
+  gaveUp : Bool := false          -- the last line search ended through the guard
 
 inductive Outcome (V : Type) where
   | returned : St V → Outcome V
@@ -119,31 +142,33 @@ inductive Outcome (V : Type) where
   | hung : St V → V → Nat → Outcome V
   | outerFuel : St V → Outcome V
 
-/-- `--gas` on `unsigned` (32 bit): 0 wraps to 2^32 - 1. -/
-def decGas (g : Nat) : Nat := if g = 0 then 4294967295 else g - 1
-
 def allSmall (S : Scalar V) (ds : Assign V) : Bool := ds.all fun p => S.lt (S.abs p.2) S.eps
 
 def slopeOf (S : Scalar V) (ds : Assign V) : V := ds.foldl (fun acc p => S.sqAdd acc p.2) S.zero
 
-/-- `while (!converged && fabs(r) >= EPSILON && --gas) { ... }` -/
+/-- `while (!converged && fabs(r) >= EPSILON && gas && --gas) { ... }` (as of /repo commit 3fa47ee) -/
 def outer (S : Scalar V) (P : Problem V) (innerFuel : Nat) : Nat → St V → Outcome V
   | 0, st => .outerFuel st
   | fuel + 1, st =>
     if st.converged then .returned st else
     if !(S.ge (S.abs st.r) S.eps) then .returned st else
-    let gas' := decGas st.gas
-    if gas' = 0 then .returned { st with gas := 0 } else
+    if st.gas = 0 then .returned st else                       -- `gas &&`
+    if st.gas - 1 = 0 then .returned { st with gas := 0 } else -- `--gas`
     -- evaluate and update our local gradient
     let ds := load st.ds (P.grad st.ev)
     -- break if all of our gradients are nearly zero
-    if allSmall S ds then .returned { st with gas := gas', ds := ds } else
+    if allSmall S ds then .returned { st with gas := st.gas - 1, ds := ds } else
     let slope := slopeOf S ds
-    match lineSearch S P st.r slope ds st.vars st.ev innerFuel 0 (S.div st.r slope) with
-    | .outOfFuel step n => .hung { st with gas := gas', ds := ds } step n
+    match lineSearch S P st.r slope ds st.vars st.ev innerFuel 0 (S.div st.r slope) st.ev with
+    | .outOfFuel step n => .hung { st with gas := st.gas - 1, ds := ds } step n
+    | .gaveUp _ _ cur =>
+      -- converged = true; r and vars keep their values; the slots keep the last rejected trial
+      outer S P innerFuel fuel
+        { st with converged := true, gas := st.gas - 1, ds := ds, ev := cur, iters := st.iters + 1,
+                  gaveUp := true }
     | .accepted a =>
       outer S P innerFuel fuel
-        { converged := a.converged, r := a.r, gas := gas', ds := ds, vars := a.vars, ev := a.ev,
+        { converged := a.converged, r := a.r, gas := st.gas - 1, ds := ds, vars := a.vars, ev := a.ev,
           iters := st.iters + 1,
           log := { step := a.step, ds := ds, halvings := a.halvings } :: st.log }
 
